@@ -216,3 +216,61 @@ func prune(lines []string, extra []string, guard, goal string, depth int) []stri
 	}
 	return out
 }
+
+// pathSyms returns the reach_/e_/dfy!/dfn! symbols of a line.
+func pathSyms(l string) []string {
+	var out []string
+	for _, s := range symbolsOf(l) {
+		if strings.HasPrefix(s, "reach_") || strings.HasPrefix(s, "e_") {
+			out = append(out, s)
+		}
+	}
+	return out
+}
+
+// onPathOnly drops the hypotheses that are guarded by a block or edge that is not an
+// ancestor of the obligation's own guard in the (acyclic, passive-form) control flow:
+// facts about other paths. Dropping hypotheses is always sound.
+func onPathOnly(lines []string, guard string) []string {
+	preds := map[string][]string{}
+	for _, l := range lines {
+		if !strings.HasPrefix(l, "(assert (= reach_") && !strings.HasPrefix(l, "(assert (= e_") {
+			continue
+		}
+		ps := pathSyms(l)
+		if len(ps) == 0 {
+			continue
+		}
+		preds[ps[0]] = append(preds[ps[0]], ps[1:]...)
+	}
+	anc := map[string]bool{}
+	var visit func(s string)
+	visit = func(s string) {
+		if anc[s] {
+			return
+		}
+		anc[s] = true
+		for _, p := range preds[s] {
+			visit(p)
+		}
+	}
+	gs := pathSyms(guard)
+	if len(gs) == 0 {
+		return lines
+	}
+	for _, g := range gs {
+		visit(g)
+	}
+	out := make([]string, 0, len(lines))
+	for _, l := range lines {
+		if strings.HasPrefix(l, "(assert (=> reach_") || strings.HasPrefix(l, "(assert (=> e_") {
+			rest := l[len("(assert (=> "):]
+			end := strings.IndexAny(rest, " )")
+			if end > 0 && !anc[rest[:end]] {
+				continue
+			}
+		}
+		out = append(out, l)
+	}
+	return out
+}
